@@ -366,10 +366,343 @@ def inline_loop_iterables(tree):
     return tree
 
 
+def _fn_blocks(node):
+    """every statement list inside *node* (not entering nested definitions): (list, owner)"""
+    for fld in ('body', 'orelse', 'finalbody'):
+        sub = getattr(node, fld, None)
+        if isinstance(sub, list) and sub and isinstance(sub[0], ast.stmt):
+            yield sub, node
+            for s_ in sub:
+                if not isinstance(s_, (ast.FunctionDef, ast.AsyncFunctionDef, ast.ClassDef)):
+                    yield from _fn_blocks(s_)
+    for h in getattr(node, 'handlers', None) or []:
+        yield from _fn_blocks(h)
+
+
+def unzip_pairs(tree):
+    """A local list J that only collects tuples (``J.append((a, b))``) and is only ever read by
+    projections ``X = [a for a, b in J]`` / ``X = deque(b for a, b in J)`` is a zipped pair of
+    lists: each projection target becomes its own list, filled where J was filled.  Canonical form
+    of "build parallel lists" -- behaviour-preserving because J has no other reader."""
+    import copy
+    for fn in [n for n in ast.walk(tree) if isinstance(n, (ast.FunctionDef, ast.AsyncFunctionDef))]:
+        parents = {}
+        for n in _walk(fn):
+            for c in ast.iter_child_nodes(n):
+                parents[id(c)] = n
+        for c in ast.iter_child_nodes(fn):
+            parents[id(c)] = fn
+        cands = {}
+        for n in _walk(fn):
+            if isinstance(n, ast.Assign) and len(n.targets) == 1 and isinstance(n.targets[0], ast.Name) \
+                    and isinstance(n.value, ast.List) and not n.value.elts:
+                cands.setdefault(n.targets[0].id, []).append(n)
+        for J, inits in cands.items():
+            if len(inits) != 1:
+                continue
+            appends, projs, ok, width = [], [], True, None
+            for n in _walk(fn):
+                if not (isinstance(n, ast.Name) and n.id == J):
+                    continue
+                par = parents.get(id(n))
+                gp = parents.get(id(par))
+                if isinstance(n.ctx, ast.Store):
+                    if par is not inits[0]:
+                        ok = False
+                    continue
+                if isinstance(par, ast.Attribute) and par.attr == 'append' and isinstance(gp, ast.Call) \
+                        and gp.func is par and len(gp.args) == 1 and isinstance(gp.args[0], ast.Tuple) \
+                        and isinstance(parents.get(id(gp)), ast.Expr):
+                    w = len(gp.args[0].elts)
+                    if width not in (None, w):
+                        ok = False
+                    width = w
+                    appends.append(parents.get(id(gp)))
+                    continue
+                if isinstance(par, ast.comprehension) and par.iter is n and not par.ifs and \
+                        isinstance(par.target, ast.Tuple) and \
+                        all(isinstance(e, ast.Name) for e in par.target.elts):
+                    comp = parents.get(id(par))
+                    if isinstance(comp, (ast.ListComp, ast.GeneratorExp)) and len(comp.generators) == 1 \
+                            and isinstance(comp.elt, ast.Name) and \
+                            comp.elt.id in [e.id for e in par.target.elts]:
+                        k = [e.id for e in par.target.elts].index(comp.elt.id)
+                        holder = parents.get(id(comp))
+                        wrap = None
+                        if isinstance(holder, ast.Call) and len(holder.args) == 1 and not holder.keywords \
+                                and holder.args[0] is comp and \
+                                (_dotted(holder.func) or '').split('.')[-1] in ('list', 'deque', 'tuple'):
+                            wrap = holder
+                            holder = parents.get(id(holder))
+                        if isinstance(holder, ast.Assign) and len(holder.targets) == 1 and \
+                                isinstance(holder.targets[0], ast.Name) and \
+                                holder.value is (wrap or comp) and len(par.target.elts) == (width or len(par.target.elts)):
+                            projs.append((holder, k, len(par.target.elts)))
+                            continue
+                ok = False
+            if not ok or not appends or not projs or any(w != width for _h, _k, w in projs):
+                continue
+            targets = [h.targets[0].id for h, _k, _w in projs]
+            if len(set(targets)) != len(targets):
+                continue
+            # the projection targets must not be used before their projection statement
+            used_elsewhere = False
+            for X in targets:
+                stores = [n for n in _walk(fn) if isinstance(n, ast.Name) and n.id == X and
+                          isinstance(n.ctx, ast.Store)]
+                if len(stores) != 1:
+                    used_elsewhere = True
+            if used_elsewhere:
+                continue
+            # rewrite
+            for blk, _owner in _fn_blocks(fn):
+                i = 0
+                while i < len(blk):
+                    st = blk[i]
+                    if st is inits[0]:
+                        new = [ast.copy_location(ast.Assign(
+                            targets=[ast.Name(id=X, ctx=ast.Store())], value=ast.List(elts=[], ctx=ast.Load())),
+                            st) for X in targets]
+                        blk[i:i + 1] = new
+                        i += len(new)
+                        continue
+                    if any(st is a for a in appends):
+                        tup = st.value.args[0]
+                        new = []
+                        for (h, k, _w), X in zip(projs, targets):
+                            call = ast.Call(func=ast.Attribute(value=ast.Name(id=X, ctx=ast.Load()),
+                                                               attr='append', ctx=ast.Load()),
+                                            args=[copy.deepcopy(tup.elts[k])], keywords=[])
+                            new.append(ast.copy_location(ast.Expr(value=call), st))
+                        blk[i:i + 1] = new
+                        i += len(new)
+                        continue
+                    if any(st is h for h, _k, _w in projs):
+                        del blk[i]
+                        continue
+                    i += 1
+            ast.fix_missing_locations(fn)
+
+
+def loops_to_comprehensions(tree):
+    """``L = []`` directly followed by ``for x in I: [if c:] L.append(e)`` (nothing else in the loop)
+    is the list comprehension ``L = [e for x in I if c]``"""
+    for fn in [n for n in ast.walk(tree) if isinstance(n, (ast.FunctionDef, ast.AsyncFunctionDef))]:
+        for blk, _owner in _fn_blocks(fn):
+            i = 0
+            while i + 1 < len(blk):
+                a, lp = blk[i], blk[i + 1]
+                if isinstance(a, ast.Assign) and len(a.targets) == 1 and isinstance(a.targets[0], ast.Name) \
+                        and isinstance(a.value, ast.List) and not a.value.elts and \
+                        isinstance(lp, ast.For) and not lp.orelse and len(lp.body) == 1:
+                    L = a.targets[0].id
+                    inner = lp.body[0]
+                    conds = []
+                    while isinstance(inner, ast.If) and not inner.orelse and len(inner.body) == 1:
+                        conds.append(inner.test)
+                        inner = inner.body[0]
+                    if isinstance(inner, ast.Expr) and isinstance(inner.value, ast.Call) and \
+                            isinstance(inner.value.func, ast.Attribute) and inner.value.func.attr == 'append' \
+                            and isinstance(inner.value.func.value, ast.Name) and \
+                            inner.value.func.value.id == L and len(inner.value.args) == 1 and \
+                            not any(isinstance(x, ast.Name) and x.id == L
+                                    for e in [lp.iter, inner.value.args[0]] + conds for x in ast.walk(e)) and \
+                            not any(isinstance(x, (ast.Yield, ast.YieldFrom, ast.Await, ast.NamedExpr))
+                                    for x in ast.walk(lp)):
+                        comp = ast.ListComp(elt=inner.value.args[0], generators=[
+                            ast.comprehension(target=lp.target, iter=lp.iter, ifs=conds, is_async=0)])
+                        blk[i:i + 2] = [ast.copy_location(ast.Assign(targets=a.targets, value=comp), a)]
+                        ast.fix_missing_locations(blk[i])
+                        continue
+                i += 1
+
+
+def countdown_loops(tree):
+    """``i = len(X)`` directly followed by ``while i > 0: i -= 1; BODY`` (BODY does not assign i, no
+    else clause) visits i = len(X)-1 ... 0 with the length read once: ``for i in
+    reversed(range(len(X))): BODY``"""
+    for fn in [n for n in ast.walk(tree) if isinstance(n, (ast.FunctionDef, ast.AsyncFunctionDef))]:
+        for blk, _owner in _fn_blocks(fn):
+            i = 0
+            while i + 1 < len(blk):
+                a, lp = blk[i], blk[i + 1]
+                if isinstance(a, ast.Assign) and len(a.targets) == 1 and isinstance(a.targets[0], ast.Name) \
+                        and isinstance(a.value, ast.Call) and isinstance(a.value.func, ast.Name) and \
+                        a.value.func.id == 'len' and len(a.value.args) == 1 and \
+                        isinstance(lp, ast.While) and not lp.orelse and len(lp.body) >= 2:
+                    v = a.targets[0].id
+                    t = lp.test
+                    test_ok = isinstance(t, ast.Compare) and len(t.ops) == 1 and (
+                        (isinstance(t.ops[0], ast.Gt) and isinstance(t.left, ast.Name) and t.left.id == v
+                         and isinstance(t.comparators[0], ast.Constant) and t.comparators[0].value == 0) or
+                        (isinstance(t.ops[0], ast.Lt) and isinstance(t.comparators[0], ast.Name) and
+                         t.comparators[0].id == v and isinstance(t.left, ast.Constant) and t.left.value == 0))
+                    d = lp.body[0]
+                    dec_ok = isinstance(d, ast.AugAssign) and isinstance(d.op, ast.Sub) and \
+                        isinstance(d.target, ast.Name) and d.target.id == v and \
+                        isinstance(d.value, ast.Constant) and d.value.value == 1
+                    rest = lp.body[1:]
+                    other = any(isinstance(x, ast.Name) and x.id == v and isinstance(x.ctx, (ast.Store, ast.Del))
+                                for s_ in rest for x in ast.walk(s_))
+                    # the variable must not be read after the loop (it would be 0 there, after a
+                    # for loop it is the last index): only rewrite when it is dead afterwards
+                    later = any(isinstance(x, ast.Name) and x.id == v for s_ in blk[i + 2:] for x in ast.walk(s_))
+                    if test_ok and dec_ok and not other and not later:
+                        it = ast.Call(func=ast.Name(id='reversed', ctx=ast.Load()), args=[
+                            ast.Call(func=ast.Name(id='range', ctx=ast.Load()), args=[a.value], keywords=[])],
+                            keywords=[])
+                        new = ast.For(target=ast.Name(id=v, ctx=ast.Store()), iter=it, body=rest, orelse=[])
+                        blk[i:i + 2] = [ast.fix_missing_locations(ast.copy_location(new, lp))]
+                        continue
+                i += 1
+
+
+def _is_jump(st):
+    return isinstance(st, (ast.Break, ast.Return, ast.Raise)) or (
+        isinstance(st, ast.Expr) and isinstance(st.value, ast.Name) and
+        st.value.id.startswith('__inline_return__'))
+
+
+def index_walk_to_queue(tree):
+    """``for i, T in enumerate(Q): BODY`` over a fresh local list Q where i is only used to name the
+    rest of the list -- ``X = Q[i:]`` (from the current element on) and ``X = Q[i + 1:]`` (after
+    it), each on a path that then leaves the loop -- is the queue walk
+    ``while Q: T = Q[0]; BODY'; Q.pop(0)`` with ``X = Q`` / ``Q.pop(0); X = Q`` at those places.
+    Q has no other reader, so consuming it is not observable.  A name X all of whose definitions
+    are then ``X = Q`` (or ``X = []`` right after the loop, where Q is empty) IS the queue."""
+    import copy
+    for fn in [n for n in ast.walk(tree) if isinstance(n, (ast.FunctionDef, ast.AsyncFunctionDef))]:
+        for blk, _owner in list(_fn_blocks(fn)):
+            for pos, lp in enumerate(list(blk)):
+                if not (isinstance(lp, ast.For) and not lp.orelse and isinstance(lp.iter, ast.Call) and
+                        isinstance(lp.iter.func, ast.Name) and lp.iter.func.id == 'enumerate' and
+                        len(lp.iter.args) == 1 and not lp.iter.keywords and
+                        isinstance(lp.iter.args[0], ast.Name) and isinstance(lp.target, ast.Tuple) and
+                        len(lp.target.elts) == 2 and isinstance(lp.target.elts[0], ast.Name)):
+                    continue
+                Q, i = lp.iter.args[0].id, lp.target.elts[0].id
+                stores = [n for n in _walk(fn) if isinstance(n, ast.Name) and n.id == Q and
+                          isinstance(n.ctx, (ast.Store, ast.Del))]
+                if len(stores) != 1:
+                    continue
+                qdef = [n for n in _walk(fn) if isinstance(n, ast.Assign) and len(n.targets) == 1 and
+                        n.targets[0] is stores[0]]
+                if not qdef or not (isinstance(qdef[0].value, (ast.ListComp, ast.List)) or (
+                        isinstance(qdef[0].value, ast.Call) and isinstance(qdef[0].value.func, ast.Name)
+                        and qdef[0].value.func.id in ('list', 'sorted'))):
+                    continue
+                if any(isinstance(n, ast.Continue) for s_ in lp.body for n in ast.walk(s_)):
+                    continue
+                # classify every use of Q and i
+                sites, ok = [], True
+                parents = {}
+                for n in _walk(fn):
+                    for c in ast.iter_child_nodes(n):
+                        parents[id(c)] = n
+
+                def offset(sl):
+                    if not (isinstance(sl, ast.Slice) and sl.upper is None and sl.step is None):
+                        return None
+                    lo = sl.lower
+                    if isinstance(lo, ast.Name) and lo.id == i:
+                        return 0
+                    if isinstance(lo, ast.BinOp) and isinstance(lo.op, ast.Add) and \
+                            isinstance(lo.left, ast.Name) and lo.left.id == i and \
+                            isinstance(lo.right, ast.Constant) and lo.right.value == 1:
+                        return 1
+                    return None
+                inside = {id(n) for s_ in lp.body for n in ast.walk(s_)}
+                for n in _walk(fn):
+                    if isinstance(n, ast.Name) and n.id == Q and isinstance(n.ctx, ast.Load):
+                        if n is lp.iter.args[0]:
+                            continue
+                        par = parents.get(id(n))
+                        gp = parents.get(id(par))
+                        if id(n) in inside and isinstance(par, ast.Subscript) and par.value is n and \
+                                offset(par.slice) is not None and isinstance(gp, ast.Assign) and \
+                                gp.value is par and len(gp.targets) == 1 and \
+                                isinstance(gp.targets[0], ast.Name):
+                            sites.append((gp, offset(par.slice)))
+                        else:
+                            ok = False
+                    if isinstance(n, ast.Name) and n.id == i and n is not lp.target.elts[0]:
+                        par = parents.get(id(n))
+                        while par is not None and not isinstance(par, ast.Slice):
+                            if isinstance(par, ast.stmt):
+                                par = None
+                                break
+                            par = parents.get(id(par))
+                        if par is None or offset(par) is None:
+                            ok = False
+                if not ok or not sites:
+                    continue
+                # each site lies in a block that ends by leaving the loop
+                site_blocks = {}
+                for b2, _o in _fn_blocks(lp):
+                    for k, st in enumerate(b2):
+                        for gp, off in sites:
+                            if st is gp:
+                                site_blocks[id(gp)] = (b2, k)
+                if len(site_blocks) != len(sites) or not all(_is_jump(b2[-1]) for b2, _k in site_blocks.values()):
+                    continue
+                for gp, off in sites:
+                    b2, _k = site_blocks[id(gp)]
+                    k = [j for j, x in enumerate(b2) if x is gp][0]
+                    gp.value = ast.copy_location(ast.Name(id=Q, ctx=ast.Load()), gp.value)
+                    if off == 1:
+                        pop = ast.Expr(value=ast.Call(func=ast.Attribute(
+                            value=ast.Name(id=Q, ctx=ast.Load()), attr='pop', ctx=ast.Load()),
+                            args=[ast.Constant(value=0)], keywords=[]))
+                        b2.insert(k, ast.copy_location(pop, gp))
+                head = ast.Assign(targets=[lp.target.elts[1]], value=ast.Subscript(
+                    value=ast.Name(id=Q, ctx=ast.Load()), slice=ast.Constant(value=0), ctx=ast.Load()))
+                tail = ast.Expr(value=ast.Call(func=ast.Attribute(
+                    value=ast.Name(id=Q, ctx=ast.Load()), attr='pop', ctx=ast.Load()),
+                    args=[ast.Constant(value=0)], keywords=[]))
+                body = [ast.copy_location(head, lp)] + lp.body
+                if not _is_jump(body[-1]):
+                    body.append(ast.copy_location(tail, lp))
+                wl = ast.copy_location(ast.While(test=ast.Name(id=Q, ctx=ast.Load()), body=body, orelse=[]), lp)
+                j = [k for k, x in enumerate(blk) if x is lp][0]
+                blk[j] = wl
+                ast.fix_missing_locations(fn)
+                # names that are the queue
+                xs = {gp.targets[0].id for gp, _off in sites}
+                for X in xs:
+                    defs = [n for n in _walk(fn) if isinstance(n, ast.Assign) and
+                            any(isinstance(t, ast.Name) and t.id == X for t in n.targets)]
+                    other = [n for n in _walk(fn) if isinstance(n, ast.Name) and n.id == X and
+                             isinstance(n.ctx, (ast.Store, ast.Del)) and
+                             not any(n in d.targets for d in defs)]
+                    good = not other
+                    after = blk[j + 1] if j + 1 < len(blk) else None
+                    for d in defs:
+                        if len(d.targets) != 1:
+                            good = False
+                        elif isinstance(d.value, ast.Name) and d.value.id == Q:
+                            pass
+                        elif isinstance(d.value, ast.List) and not d.value.elts and d is after:
+                            pass
+                        else:
+                            good = False
+                    if not good:
+                        continue
+                    for n in _walk(fn):
+                        if isinstance(n, ast.Name) and n.id == X and isinstance(n.ctx, ast.Load):
+                            n.id = Q
+                    for b3, _o in _fn_blocks(fn):
+                        b3[:] = [x for x in b3 if not any(x is d for d in defs)] or [ast.Pass()]
+                    ast.fix_missing_locations(fn)
+
+
 def canonicalise(tree, modname, log=None):
     """rename, in place, the locals that play the roles of TABLE to their canonical names"""
     orient_comparisons(tree)
     split_parallel_assign(tree)
+    unzip_pairs(tree)
+    loops_to_comprehensions(tree)
+    countdown_loops(tree)
+    index_walk_to_queue(tree)
     inline_loop_iterables(tree)
     for qual, roles in TABLE.items():
         mod, _, rest = qual.partition('.')
